@@ -59,6 +59,8 @@ pub struct FnInfo {
     pub spawn: Option<fn(u32) -> BoxFut>,
     /// number of harness-controlled await points in the body
     pub gates: usize,
+    /// the function takes no arguments: whatever key the harness passes, there is one entry (key "")
+    pub zero_arg: bool,
 }
 
 pub type BoxFut = Pin<Box<dyn Future<Output = String>>>;
